@@ -27,6 +27,7 @@ import (
 	"go.amzn.com/lambda/rapidcore/env"
 	supvmodel "go.amzn.com/lambda/supervisor/model"
 	"go.amzn.com/lambda/telemetry"
+	"go.amzn.com/lambda/verifhook"
 
 	"github.com/google/uuid"
 	log "github.com/sirupsen/logrus"
@@ -177,6 +178,7 @@ func doInitExtensions(domain string, agentPaths []string, execCtx *rapidContext,
 			return err
 		}
 
+		verifhook.Point("exec.beforeExitChannel")
 		execCtx.shutdownContext.createExitedChannel(agentName)
 	}
 
@@ -220,6 +222,7 @@ func doRuntimeBootstrap(execCtx *rapidContext, sbInfoFromInit interop.SandboxInf
 
 func (c *rapidContext) watchEvents(events <-chan supvmodel.Event) {
 	for event := range events {
+		verifhook.Point("watchEvents.received")
 		var err error
 		log.Debugf("The events handler received the event %+v.", event)
 		if loss := event.Event.EventLoss(); loss != nil {
@@ -256,6 +259,7 @@ func (c *rapidContext) watchEvents(events <-chan supvmodel.Event) {
 		// When their are other event types then we would need to be selective,
 		// about what we send to handleShutdownEvent().
 		c.shutdownContext.handleProcessExit(*termination)
+		verifhook.Point("watchEvents.exitRecorded")
 		c.registrationService.CancelFlows(err)
 	}
 }
@@ -370,6 +374,7 @@ func doRuntimeDomainInit(execCtx *rapidContext, sbInfoFromInit interop.SandboxIn
 		return err
 	}
 
+	verifhook.Point("exec.beforeExitChannel")
 	execCtx.shutdownContext.createExitedChannel(name)
 
 	if err := initFlow.AwaitRuntimeRestoreReady(); err != nil {
@@ -691,6 +696,7 @@ func handleInvoke(execCtx *rapidContext, invokeRequest *interop.Invoke, sbInfoFr
 }
 
 func reinitialize(execCtx *rapidContext) {
+	verifhook.Point("rapidCtx.beforeClear")
 	execCtx.appCtx.Delete(appctx.AppCtxInvokeErrorTraceDataKey)
 	execCtx.appCtx.Delete(appctx.AppCtxRuntimeReleaseKey)
 	execCtx.appCtx.Delete(appctx.AppCtxFirstFatalErrorKey)
